@@ -75,8 +75,11 @@ def _raise_unless_kind(prog, fn: Fn, index_name: str) -> Optional[Set[str]]:
 
 
 def _pc_after_define(prog) -> Optional[Set[str]]:
+    from ..exceptions import _same_navigation
     fn = prog.method("IsPreprocessorStatement", "check_define")
-    return _raise_unless_kind(prog, fn, "index") if fn else None
+    if fn is None or not _same_navigation("CheckPreprocessorDefine", 3):
+        return None            # the check no longer walks the directive the way the primary validated it
+    return _raise_unless_kind(prog, fn, "index")
 
 
 def _pc_after_ifndef(prog) -> Optional[Set[str]]:
@@ -86,6 +89,9 @@ def _pc_after_ifndef(prog) -> Optional[Set[str]]:
         return None
     if not any(isinstance(n, ast.Return) and isinstance(n.value, ast.Call) and text(n.value.func) == "self._just_identifier"
                for n in walk_fn(ci.node)):
+        return None
+    from ..exceptions import _same_navigation
+    if not _same_navigation("CheckPreprocessorProtection", 3):
         return None
     return _raise_unless_kind(prog, ji, "index")
 
